@@ -141,7 +141,13 @@ def _case_chunk(recs):
             elif tag != "ok":
                 ok = False
             else:
-                cands = _seed_candidates(t, nets.project(val))
+                try:
+                    proj = nets.project(val)
+                except Exception as ex:  # noqa: BLE001  the object came back but its own accessors raise: not a usable answer
+                    tag, val, proj = "exc", "returned an object whose accessors raise %s" % type(ex).__name__, None
+                    ok = False
+            if tag == "ok" and not any(o["r"] == "any" for o in allowed):
+                cands = _seed_candidates(t, proj)
                 if val is None:
                     ok = maynone
                 else:
